@@ -235,6 +235,8 @@ class Report:
             self.samples.append(s)
 
     def violation(self, rule, key, msg, site):
+        if any(v["key"] == key for v in self.violations):
+            return  # one report per construct
         self.violations.append({"rule": rule, "key": key, "msg": msg, "site": site})
 
     def assume(self, s):
